@@ -64,7 +64,62 @@ type codec struct {
 	maxSeed int
 	// maxSeeds bounds the number of seeds (quick, thorough); 0 = all.
 	maxSeeds [2]int
+	// base: for the derived JSON codec, the codec of the binary form of the type.
+	base *codec
 }
+
+// crossCheck: a value a decoder accepted must survive the OTHER wire form of
+// its type as well (binary-accepted -> JSON and back, JSON-accepted -> binary
+// and back) with the same content and hash.
+func (c *codec) crossCheck(v any, bad func(oracle, detail string)) {
+	var name string
+	var enc func(v any) ([]byte, error)
+	var dec func(b []byte) (any, error)
+	var outside func(err error) bool
+	canon, hash, noDeep := c.canonOf, c.hash, c.noDeep
+	switch {
+	case c.base != nil: // this is the JSON decoder: go through the binary form
+		name, enc, dec, outside = "binary", c.base.enc, c.base.dec, c.base.encMayFail
+		canon, noDeep = c.base.canonOf, c.base.noDeep
+	case c.jenc != nil && c.jdec != nil:
+		name, enc, dec, outside = "json", c.jenc, c.jdec, isNoJSON
+	default:
+		return
+	}
+	b, err := enc(v)
+	if err != nil {
+		if !(outside != nil && outside(err)) {
+			bad("cross-"+name+"-encode-fails", err.Error())
+		}
+		return
+	}
+	v2, err := dec(b)
+	if err != nil {
+		bad("cross-"+name+"-rejects", fmt.Sprintf("%v; %s form: %s", err, name, clipS(b, name)))
+		return
+	}
+	if !noDeep && !c.noDeepDecoded {
+		if ok, path := semEqual(v, v2); !ok {
+			bad("cross-"+name+"-value-differs", "first difference at "+path+"; "+name+" form: "+clipS(b, name))
+			return
+		}
+	}
+	if !c.noBytes {
+		c1, err1 := canon(v)
+		c2, err2 := canon(v2)
+		if err1 == nil && (err2 != nil || !bytes.Equal(c1, c2)) {
+			bad("cross-"+name+"-encoding-differs", fmt.Sprintf("%s vs %s (%v); %s form: %s", clip(c1), clip(c2), err2, name, clipS(b, name)))
+		}
+	}
+	if hash != nil {
+		if h, h2 := hash(v), hash(v2); h != h2 {
+			bad("cross-"+name+"-hash-differs", h+" vs "+h2)
+		}
+	}
+}
+
+var _ = bytes.Equal
+
 
 type namedBytes struct {
 	name string
@@ -177,6 +232,7 @@ func jsonCodecOf(c *codec) *codec {
 		maxSeed:  900,
 		maxSeeds: [2]int{10, 40},
 		derived:  true,
+		base:     c,
 	}
 }
 
